@@ -246,6 +246,28 @@ PpsRangeBits(p) == (IF p.tskip THEN UECode(p.rx.log2skip) ELSE <<>>) \o B(p.rx.c
                    \o (IF p.rx.cqlist THEN UECode(p.rx.cqdepth) \o UECode(Len(p.rx.cblist) - 1)
                                            \o Cat([i \in 1 .. Len(p.rx.cblist) |-> SECode(p.rx.cblist[i]) \o SECode(0 - p.rx.cblist[i])]) ELSE <<>>)
                    \o UECode(p.rx.saoluma) \o UECode(p.rx.saochroma)
+\* F.7.3.2.3.4 pps_multilayer_extension with F.7.3.2.3.5 colour_mapping_table (octant depth 0, one luma partition: the four
+\* vertices of the single octant follow, the first one coded when cmcoded), I.7.3.2.3.7 pps_3d_extension (every depth layer
+\* either without a table or with an empty delta table), 7.3.2.3.3 pps_scc_extension
+LocBits(l) == U(6, l.id) \o B(l.scaled # <<>>) \o Cat([i \in 1 .. Len(l.scaled) |-> SECode(l.scaled[i])])
+              \o B(l.region # <<>>) \o Cat([i \in 1 .. Len(l.region) |-> SECode(l.region[i])])
+              \o B(l.phase # <<>>) \o Cat([i \in 1 .. Len(l.phase) |-> UECode(l.phase[i])])
+CmResLsBits(m) == LET v == 10 + m.cmbd[1] - m.cmbd[3] - m.cmres - (m.cmflc + 1) IN IF v < 0 THEN 0 ELSE v
+CmCoeffBits(m, q, r) == UECode(q) \o U(CmResLsBits(m), r) \o (IF q # 0 \/ r # 0 THEN <<1>> ELSE <<>>)
+CmBits(m) == UECode(Len(m.cmlayers) - 1) \o Cat([i \in 1 .. Len(m.cmlayers) |-> U(6, m.cmlayers[i])]) \o U(2, 0) \o U(2, 0)
+             \o Cat([i \in 1 .. 4 |-> UECode(m.cmbd[i])]) \o U(2, m.cmres) \o U(2, m.cmflc)
+             \o (IF m.cmcoded THEN <<1>> \o CmCoeffBits(m, 0, 0) \o CmCoeffBits(m, 1, 0) \o CmCoeffBits(m, 2, IF CmResLsBits(m) = 0 THEN 0 ELSE 1) ELSE <<0>>) \o <<0, 0, 0>>
+MlBits(m) == B(m.poc) \o B(m.infer) \o (IF m.infer THEN U(6, m.inferid) ELSE <<>>)
+             \o UECode(Len(m.locs)) \o Cat([i \in 1 .. Len(m.locs) |-> LocBits(m.locs[i])])
+             \o B(m.cm) \o (IF m.cm THEN CmBits(m) ELSE <<>>)
+D3Bits(d) == B(d.dlts) \o (IF d.dlts THEN U(6, d.layers) \o U(4, d.depth)
+                                          \o Cat([i \in 1 .. (d.layers + 1) |-> IF d.dlt = "off" THEN <<0>> ELSE <<1, 0, 0>> \o U(d.depth + 8, 0)]) ELSE <<>>)
+SccBits(x) == B(x.currpic) \o B(x.ract) \o (IF x.ract THEN B(x.actpresent) \o Cat([i \in 1 .. 3 |-> SECode(x.actoff[i])]) ELSE <<>>)
+              \o B(x.palon) \o (IF x.palon THEN UECode(Len(x.pal))
+                    \o (IF Len(x.pal) > 0 THEN B(x.mono) \o UECode(x.lbd) \o (IF ~x.mono THEN UECode(x.cbd) ELSE <<>>)
+                                               \o Cat([i \in 1 .. Len(x.pal) |-> U(x.lbd + 8, x.pal[i])])
+                                               \o (IF ~x.mono THEN Cat([i \in 1 .. Len(x.pal) |-> U(x.cbd + 8, x.pal[i])]) \o Cat([i \in 1 .. Len(x.pal) |-> U(x.cbd + 8, Len(x.pal) - i)])
+                                                   ELSE <<>>) ELSE <<>>) ELSE <<>>)
 PpsData(p) ==
     UECode(p.id) \o UECode(p.spsid) \o B(p.depslices) \o B(p.outflag) \o U(3, p.extrabits) \o B(p.signhide) \o B(p.cabacinit)
     \o UECode(p.l0) \o UECode(p.l1) \o SECode(p.qp) \o B(p.cintra) \o B(p.tskip) \o B(p.cuqp) \o (IF p.cuqp THEN UECode(p.cuqpdepth) ELSE <<>>)
@@ -256,15 +278,24 @@ PpsData(p) ==
     \o B(p.lfslices) \o B(p.dbctrl) \o (IF p.dbctrl THEN B(p.dboverride) \o B(p.dboff) \o (IF ~p.dboff THEN SECode(p.beta) \o SECode(p.tc) ELSE <<>>) ELSE <<>>)
     \o B(p.scaling # "none") \o (IF p.scaling # "none" THEN ScalingListBits(p.scaling) ELSE <<>>)
     \o B(p.listsmod) \o UECode(p.pmerge) \o B(p.shext)
-    \o B(p.ext) \o (IF p.ext THEN B(p.rxon) \o <<0, 0, 0>> \o <<0, 0, 0, 0>> ELSE <<>>)
+    \o B(p.ext) \o (IF p.ext THEN B(p.rxon) \o B(p.mlx.on) \o B(p.d3x.on) \o B(p.sccx.on) \o <<0, 0, 0, 0>> ELSE <<>>)
     \o (IF p.ext /\ p.rxon THEN PpsRangeBits(p) ELSE <<>>)
+    \o (IF p.ext /\ p.mlx.on THEN MlBits(p.mlx) ELSE <<>>)
+    \o (IF p.ext /\ p.d3x.on THEN D3Bits(p.d3x) ELSE <<>>)
+    \o (IF p.ext /\ p.sccx.on THEN SccBits(p.sccx) ELSE <<>>)
 PpsNal(p) == NalBytes2(34, 1, PpsData(p))
+LocFull == [id |-> 5, scaled |-> <<-16384, 16383, 0, 1>>, region |-> <<2, -2, 100, -100>>, phase |-> <<31, 0, 63, 8>>]
+MlBase == [on |-> FALSE, poc |-> FALSE, infer |-> FALSE, inferid |-> 0, locs |-> <<>>, cm |-> FALSE, cmlayers |-> <<0>>, cmbd |-> <<0, 0, 0, 0>>, cmres |-> 0, cmflc |-> 0,
+           cmcoded |-> FALSE]
+MlOn == [MlBase EXCEPT !.on = TRUE]
+D3Base == [on |-> FALSE, dlts |-> FALSE, layers |-> 0, depth |-> 0, dlt |-> "off"]
+SccBase == [on |-> FALSE, currpic |-> FALSE, ract |-> FALSE, actpresent |-> FALSE, actoff |-> <<0, 0, 0>>, palon |-> FALSE, pal |-> <<>>, mono |-> FALSE, lbd |-> 0, cbd |-> 0]
 RxBase == [log2skip |-> 1, ccp |-> FALSE, cqlist |-> FALSE, cqdepth |-> 1, cblist |-> <<3, -2>>, saoluma |-> 0, saochroma |-> 2]
 PpsBase == [id |-> 0, spsid |-> 0, depslices |-> FALSE, outflag |-> FALSE, extrabits |-> 0, signhide |-> TRUE, cabacinit |-> FALSE, l0 |-> 0, l1 |-> 0, qp |-> 0,
             cintra |-> FALSE, tskip |-> FALSE, cuqp |-> FALSE, cuqpdepth |-> 1, cbqp |-> 0, crqp |-> 0, slicecq |-> FALSE, wpred |-> FALSE, wbipred |-> FALSE,
             tqbypass |-> FALSE, tiles |-> FALSE, wpp |-> FALSE, cols |-> <<4>>, rows |-> <<2, 3>>, uniform |-> TRUE, lftiles |-> TRUE, lfslices |-> TRUE,
             dbctrl |-> FALSE, dboverride |-> FALSE, dboff |-> FALSE, beta |-> 0, tc |-> 0, scaling |-> "none", listsmod |-> FALSE, pmerge |-> 0, shext |-> FALSE,
-            ext |-> FALSE, rxon |-> FALSE, rx |-> RxBase]
+            ext |-> FALSE, rxon |-> FALSE, rx |-> RxBase, mlx |-> MlBase, d3x |-> D3Base, sccx |-> SccBase]
 PpsFieldVals ==
     [id : {0, 1, 63}] \cup [depslices : BOOLEAN] \cup [outflag : BOOLEAN] \cup [extrabits : {0, 2, 7}] \cup [signhide : BOOLEAN] \cup [cabacinit : BOOLEAN]
     \cup [l0 : {0, 1, 14}] \cup [l1 : {0, 1, 14}] \cup [qp : {0, -26, 25, 1}] \cup [cintra : BOOLEAN] \cup [tskip : BOOLEAN] \cup [cuqp : BOOLEAN] \cup [cuqpdepth : {0, 3}]
@@ -274,11 +305,23 @@ PpsFieldVals ==
     \cup [scaling : {"none", "pred", "explicit", "mixed"}] \cup [listsmod : BOOLEAN] \cup [pmerge : {0, 4}] \cup [shext : BOOLEAN] \cup [ext : BOOLEAN] \cup [rxon : BOOLEAN]
     \cup [rx : {[RxBase EXCEPT !.ccp = TRUE], [RxBase EXCEPT !.cqlist = TRUE], [RxBase EXCEPT !.cqlist = TRUE, !.cblist = <<12, -12, 0, 1, -1, 5>>, !.cqdepth = 0],
                 [RxBase EXCEPT !.log2skip = 3, !.saoluma = 4, !.saochroma = 0]}]
+    \cup [mlx : {MlOn, [MlOn EXCEPT !.poc = TRUE, !.infer = TRUE, !.inferid = 63], [MlOn EXCEPT !.locs = <<LocFull>>],
+                 [MlOn EXCEPT !.locs = <<[id |-> 0, scaled |-> <<>>, region |-> <<>>, phase |-> <<>>], LocFull, [LocFull EXCEPT !.id = 63, !.region = <<>>]>>],
+                 [MlOn EXCEPT !.cm = TRUE], [MlOn EXCEPT !.cm = TRUE, !.cmlayers = [i \in 1 .. 62 |-> i - 1], !.cmres = 3, !.cmflc = 3],
+                 [MlOn EXCEPT !.cm = TRUE, !.cmlayers = <<63, 1>>, !.cmbd = <<2, 1, 0, 3>>, !.cmcoded = TRUE],
+                 [MlOn EXCEPT !.cm = TRUE, !.cmbd = <<0, 0, 8, 8>>, !.cmres = 3, !.cmflc = 3, !.cmcoded = TRUE]}]
+    \cup [d3x : {[D3Base EXCEPT !.on = TRUE], [D3Base EXCEPT !.on = TRUE, !.dlts = TRUE], [D3Base EXCEPT !.on = TRUE, !.dlts = TRUE, !.layers = 63, !.depth = 7],
+                 [D3Base EXCEPT !.on = TRUE, !.dlts = TRUE, !.layers = 2, !.depth = 8, !.dlt = "delta0"]}]
+    \cup [sccx : {[SccBase EXCEPT !.on = TRUE], [SccBase EXCEPT !.on = TRUE, !.currpic = TRUE],
+                  [SccBase EXCEPT !.on = TRUE, !.ract = TRUE, !.actpresent = TRUE, !.actoff = <<-7, 17, 3>>],
+                  [SccBase EXCEPT !.on = TRUE, !.palon = TRUE], [SccBase EXCEPT !.on = TRUE, !.palon = TRUE, !.pal = <<255, 0, 7>>],
+                  [SccBase EXCEPT !.on = TRUE, !.palon = TRUE, !.pal = <<1023, 1>>, !.mono = TRUE, !.lbd = 2],
+                  [SccBase EXCEPT !.on = TRUE, !.palon = TRUE, !.pal = <<9>>, !.lbd = 8, !.cbd = 4]}]
 PpsBases == {PpsBase, [PpsBase EXCEPT !.tiles = TRUE, !.uniform = FALSE, !.dbctrl = TRUE, !.ext = TRUE, !.rxon = TRUE, !.tskip = TRUE]}
 IdPairs == {<<0, 0>>, <<1, 0>>, <<0, 1>>, <<2, 1>>, <<7, 15>>, <<63, 3>>}
 PpsVectors == {Override(b, o) : b \in PpsBases, o \in PpsFieldVals}
               \cup (IF Pairwise THEN {Override(Override(PpsBase, o1), o2) : o1 \in PpsFieldVals, o2 \in PpsFieldVals} ELSE {})
-PpsValid(p) == p.rxon => p.ext
+PpsValid(p) == (p.rxon \/ p.mlx.on \/ p.d3x.on \/ p.sccx.on) => p.ext
 
 (* -------------------------------------------------------------- slice 7.3.6.1 *)
 \* slice types: 0 B, 1 P, 2 I. nt = nal_unit_type: 1 TRAIL_R, 19 IDR_W_RADL, 20 IDR_N_LP, 21 CRA, 16 BLA_W_LP
@@ -392,7 +435,12 @@ SlicePpsSet(sps) == {[PpsBase EXCEPT !.id = i, !.spsid = sps.id] : i \in {0, 1, 
                           [PpsBase EXCEPT !.id = 6, !.spsid = sps.id, !.dbctrl = TRUE, !.dboverride = TRUE, !.dboff = TRUE, !.wpp = TRUE, !.listsmod = TRUE, !.l0 = 3,
                                           !.ext = TRUE, !.rxon = TRUE, !.rx = [RxBase EXCEPT !.cqlist = TRUE]],
                           [PpsBase EXCEPT !.id = 7, !.spsid = sps.id, !.dbctrl = TRUE, !.dboff = TRUE],                       \* deblocking disabled in the PPS, no override possible
-                          [PpsBase EXCEPT !.id = 8, !.spsid = sps.id, !.dbctrl = TRUE, !.dboverride = TRUE, !.dboff = TRUE, !.lfslices = TRUE]}
+                          [PpsBase EXCEPT !.id = 8, !.spsid = sps.id, !.dbctrl = TRUE, !.dboverride = TRUE, !.dboff = TRUE, !.lfslices = TRUE],
+                          \* every PPS extension present; none of the flags a slice header depends on (curr pic ref, ACT offsets) set
+                          [PpsBase EXCEPT !.id = 9, !.spsid = sps.id, !.ext = TRUE, !.rxon = TRUE,
+                                          !.mlx = [MlOn EXCEPT !.locs = <<LocFull>>, !.cm = TRUE, !.cmlayers = <<63, 1>>, !.cmbd = <<2, 1, 0, 3>>, !.cmcoded = TRUE],
+                                          !.d3x = [D3Base EXCEPT !.on = TRUE, !.dlts = TRUE, !.layers = 2, !.depth = 8, !.dlt = "delta0"],
+                                          !.sccx = [SccBase EXCEPT !.on = TRUE, !.ract = TRUE, !.actoff = <<-7, 17, 3>>, !.palon = TRUE, !.pal = <<255, 0, 7>>]]}
 SliceCtx == UNION {{<<x, p>> : p \in SlicePpsSet(x)} : x \in SliceSpsSet}
 SliceOK(c) ==
     LET lst == RpsLists[c.sps.rps] IN
